@@ -104,10 +104,12 @@ func HarnessC22() {
 	}
 	got := render(both, lsBoth[1])
 	want := render(only2, lsOnly[0])
-	vAssert(vStrEq(got, want), "C22.record-carries-own-label-sets-value")
+	// (a graphite histogram record is one line per bucket written while
+	// ranging over a map: the lines are compared as a set)
+	vAssert(vSameLines(got, want), "C22.record-carries-own-label-sets-value")
 	// the record for label set 1 is not the one for label set 2
 	first := render(both, lsBoth[0])
-	vAssert(!vStrEq(first, got), "C22.records-distinct")
+	vAssert(!vSameLines(first, got), "C22.records-distinct")
 }
 
 // HarnessC22Reexport: a second export after a label set was removed and
@@ -150,6 +152,6 @@ func HarnessC22Reexport() {
 		return
 	}
 	for i := range got {
-		vAssert(vStrEq(render(m, got[i]), render(fresh, want[i])), "C22.second-export-carries-current-values")
+		vAssert(vSameLines(render(m, got[i]), render(fresh, want[i])), "C22.second-export-carries-current-values")
 	}
 }
